@@ -53,6 +53,19 @@ class _Sub(ast.NodeTransformer):
                 return acopy(self.env[k])
         return self.generic_visit(n)
 
+    def visit_Call(self, n):
+        self.generic_visit(n)
+        # max((a, b)) is max(a, b)
+        if isinstance(n.func, ast.Name) and n.func.id in ("max", "min") \
+                and len(n.args) == 1 and not n.keywords and isinstance(
+                    n.args[0], (ast.Tuple, ast.List)) and len(
+                        n.args[0].elts) >= 2 and not any(
+                            isinstance(x, ast.Starred)
+                            for x in n.args[0].elts):
+            return ast.copy_location(ast.Call(n.func, list(n.args[0].elts),
+                                              []), n)
+        return n
+
     def visit_Subscript(self, n):
         self.generic_visit(n)
         # (a, b)[0] is a
